@@ -18,6 +18,7 @@ structure Opts where
   maxItems : Nat              -- item rows of the list window
   total : Nat                 -- number of items loaded
   scrollOff : Nat := 3
+  track : Bool := false       -- --track
   isWord : Nat → Bool         -- [\pL\pN]
   resultsOf : Str → Bool → List Nat   -- item numbers in display order for (query, sort)
   itemText : Nat → Str        -- runes of an item
@@ -36,6 +37,7 @@ structure TS where
   sort : Bool := true
   printQueue : List Str := []
   outcome : Option Outcome := none
+  excluded : List Nat := []     -- items removed from the results by `exclude`
 deriving Repr
 
 inductive Action where
@@ -48,7 +50,7 @@ inductive Action where
   | pageUp | pageDown | halfPageUp | halfPageDown
   | select | deselect | toggle | toggleUp | toggleDown | toggleIn | toggleOut
   | selectAll | deselectAll | toggleAll | clearSelection
-  | toggleSort
+  | toggleSort | exclude | excludeMulti
   | accept | acceptNonEmpty | acceptOrPrintQuery | abort | printQuery
   | print (s : Str)
 deriving Repr, DecidableEq
@@ -189,6 +191,15 @@ def act (op : Opts) (s : TS) : Action → TS
     else s
   | .clearSelection => if op.multi > 0 then { s with selected := [] } else s
   | .toggleSort => { s with sort := !s.sort }
+  | .exclude =>
+    match currentItem s with
+    | some i => { deselectItem s i with excluded := i :: s.excluded }
+    | none => s
+  | .excludeMulti =>
+    if s.selected.length > 0 then { s with excluded := s.selected ++ s.excluded, selected := [] }
+    else match currentItem s with
+      | some i => { s with excluded := i :: s.excluded }
+      | none => s
   | .accept => { s with outcome := some .accept }
   | .acceptNonEmpty =>
     if s.selected.length > 0 ∨ s.results.length > 0 ∨ op.total = 0 then { s with outcome := some .accept } else s
@@ -258,10 +269,31 @@ def constrain (op : Opts) (s : TS) : TS :=
   -- the Go loop runs at most maxLines times and compares with the offset before the iteration
   { s with cy := cy, offset := if op.maxItems = 0 then offset0 else iter offset0 op.maxItems }
 
+/-- `Terminal.UpdateList`: the new result list arrives. With `--track` the cursor follows the item
+    it was on (looked up by item number in the new list) and keeps its distance to the top of the
+    window; an item that is gone leaves the cursor where it was, pulled back when it is beyond the
+    end of the list. Without `--track` the cursor position is kept as a number. -/
+def updateList (op : Opts) (s : TS) (new : List Nat) : TS :=
+  if op.track then
+    let prev : Option Nat :=
+      if s.results.length > 0 then currentItem s else new.head?
+    match prev with
+    | none => { s with results := new }
+    | some i =>
+      let pos := s.cy - s.offset
+      let count : Int := new.length
+      match new.findIdx? (· == i) with
+      | some k => { s with results := new, cy := (k : Int), offset := (k : Int) - pos }
+      | none =>
+        if s.cy > count then { s with results := new, cy := count - min count (op.maxItems : Int) + pos }
+        else { s with results := new }
+  else { s with results := new }
+
 /-- After a batch of actions: truncate the query, re-run the search if it changed, render. -/
 def afterActions (op : Opts) (before : TS) (s : TS) : TS :=
   let s := { s with input := s.input.take maxPatternLength, cx := min s.cx (min s.input.length maxPatternLength) }
-  let s := if s.input != before.input ∨ s.sort != before.sort then { s with results := op.resultsOf s.input s.sort } else s
+  let s := if s.input != before.input ∨ s.sort != before.sort ∨ s.excluded != before.excluded
+    then updateList op s ((op.resultsOf s.input s.sort).filter (fun i => !s.excluded.contains i)) else s
   constrain op s
 
 /-- One POSTed action list. -/
